@@ -131,7 +131,7 @@ class World:
         elif kind == 'err':
             blocked = isinstance(sys.stderr, _has_patcher.PatchedStringIO)
             self.log.append(('K ' if blocked else 'E ') + 'err')
-            sys.stderr.write('x')
+            if sys.stderr is not None: sys.stderr.write('x')
         else:
             blocked = isinstance(socket.socket, _has_patcher.PatchedSocket)
             self.log.append(('K ' if blocked else 'E ') + 'sock')
@@ -467,7 +467,10 @@ class World:
 
 
 def run_one(sc):
+    global SINK_OUT, SINK_ERR
     w = World()
+    if sc.get('null_streams'):
+        SINK_OUT = SINK_ERR = None      # a process without standard streams (pythonw, a daemon): None is the value to restore
     sys.stdout, sys.stderr = SINK_OUT, SINK_ERR
     try:
         if 'contracts' in sc:
